@@ -178,6 +178,10 @@ func zzServerWithPrompts(n int) (*Server, []string) {
 	fs, keys := zzPromptSet(n)
 	s := &Server{prompts: fs}
 	s.opts.PageSize = vIntRange("pageSize", 1, vParam("maxPage"))
+	if vBool("pageSizeMeansNoPaging") {
+		// "no paging" spelt as a huge page size, up to the largest int (NewServer accepts every positive value)
+		s.opts.PageSize = vIntRange("hugePageSize", 1<<40, 1<<63-1)
+	}
 	return s, keys
 }
 
